@@ -44,3 +44,5 @@ def emit(name, alpha, what):
 os.makedirs(OUT, exist_ok=True)
 emit("matrix_abc", ["a", "b", "c"], "all tuples of <=3 sorted duplicate-free lists (len<=2) over {a,b,c}: rejected iff two lists share a name")
 emit("matrix_prefix", ["a", "aa", "ab"], "same over {a,aa,ab}: names that are prefixes of each other are distinct")
+emit("matrix_len", ["aa", "b", "c"], "same over {aa,b,c}: a longer name that sorts BEFORE shorter ones (the scan must advance in lexicographic, not length, order)")
+emit("matrix_len2", ["a", "bb", "c"], "same over {a,bb,c}: a longer name between shorter ones")
